@@ -28,16 +28,16 @@ def ref_root(pk: bytes, script: bytes) -> bytes:
     return E.point_add(pk, E.base_mult_noclamp(t))
 
 
-def one(F, T, seed, oseed, script, oscript, w, fl, lockkind, sf=None, prefix=b'', limit=128):
+def one(F, T, seed, oseed, script, oscript, w, fl, lockkind, sf=None, prefix=b'', limit=128, allowed=ALLOWED, fh=None):
     sf = sf or SF
     S, OS = T.Script.from_bytes(script), T.Script.from_bytes(oscript)
     pk, opk = E.public_key(seed), E.public_key(oseed)
     mk = T.make_taproot_lock if lockkind == 'native' else T.make_nonnative_taproot_lock
-    lock = bytes(mk(pk, S, sigflags=ALLOWED).bytes)
+    lock = bytes(mk(pk, S, sigflags=allowed).bytes)
     root = ref_root(pk, script)
     if root not in lock:
         return ['root-mismatch', 'noexec']
-    fh = FLAG[fl]
+    fh = fh or FLAG[fl]
     supplied = script
     if w == 'keyspend':
         wit = T.make_taproot_witness_keyspend(seed, dict(sf), S, sigflags=fh)
@@ -79,11 +79,20 @@ def run_mc(k):
     F, T = _impl()
     seeds = {1: b'\x31' * 32, 2: b'\x32' * 32}
     scripts = {1: script_bytes(0x51, k['sv']), 2: script_bytes(0x52, k['sv'])}
-    got = one(F, T, seeds[k['k']], seeds[3 - k['k']], scripts[k['s']], scripts[3 - k['s']], k['w'], k['fl'], k['lock'])
     exp = k['expect']
-    # run_auth_scripts reports an execution error as False
-    if got[0] == 'false' and exp[0] == 'error':
-        got[0] = 'error'
+    # the flag classes are concretised by every single-bit allowed-flags byte: permitted = that bit, non-permitted = the next bit
+    pairs = [(ALLOWED, FLAG[k['fl']])]
+    if k['w'].startswith('key') and k['fl'] != 'f0':
+        pairs += [(f'{1 << i:02x}', f'{1 << (i if k["fl"] == "perm" else (i + 1) % 8):02x}') for i in range(8)]
+    got = None
+    for allowed, fh in pairs:
+        got = one(F, T, seeds[k['k']], seeds[3 - k['k']], scripts[k['s']], scripts[3 - k['s']], k['w'], k['fl'], k['lock'],
+                  allowed=allowed, fh=fh)
+        # run_auth_scripts reports an execution error as False
+        if got[0] == 'false' and exp[0] == 'error':
+            got[0] = 'error'
+        if got != exp:
+            return got, f'allowed flags x{allowed}, signature flag x{fh}'
     return got, None
 
 
@@ -104,8 +113,20 @@ def record_random(args):
         sf = {f'sigfield{i}': r.randbytes(r.choice([1, 8, 50])) for i in range(1, 9) if r.random() < 0.5}
         sf.setdefault('sigfield1', b'x')
         w, fl, lk = r.choice(classes), r.choice(['f0', 'f0', 'perm', 'nonperm']), r.choice(['native', 'nonnative'])
+        # random allowed-flags byte; permitted = a non-empty subset of it, non-permitted = some bit outside it
+        al = r.choice([1 << r.randrange(8), r.randrange(1, 256), r.randrange(1, 256), 0x0a, 0x10, 0xa5, 0xff])
+        if fl == 'nonperm' and al == 0xff:
+            fl = 'perm'
+        sub = al & r.randrange(256) or (al & -al)
+        outside = [1 << i for i in range(8) if not al >> i & 1]
+        fv = 0 if fl == 'f0' else sub if fl == 'perm' else (r.choice(outside) | (al & r.randrange(256)))
+        if sub == 0xff:
+            sub = 0xfe          # the builders refuse xff (a signature must cover at least one sigfield)
+        fv = 0xfe if fv == 0xff and fl == 'perm' else fv
+        if fv == 0xff:
+            fv = outside[0]
         try:
-            got = one(F, T, s1, s2, script, oscript, w, fl, lk, sf)
+            got = one(F, T, s1, s2, script, oscript, w, fl, lk, sf, allowed=f'{al:02x}', fh=f'{fv:02x}')
         except BaseException as e:
             if isinstance(e, (KeyboardInterrupt, SystemExit)):
                 raise
@@ -116,8 +137,10 @@ def record_random(args):
         prefix = b''.join(adv['scripts'][:-1])[:400]
         w2 = r.choice(classes)
         try:
-            a = one(F, T, s1, s2, script, oscript, w2, 'f0', 'native', sf, prefix)
-            b = one(F, T, s1, s2, script, oscript, w2, 'f0', 'nonnative', sf, prefix)
+            fl2 = r.choice(['f0', 'perm', 'nonperm']) if al != 0xff else 'perm'
+            fv2 = 0 if fl2 == 'f0' else sub if fl2 == 'perm' else r.choice(outside)
+            a = one(F, T, s1, s2, script, oscript, w2, fl2, 'native', sf, prefix, allowed=f'{al:02x}', fh=f'{fv2:02x}')
+            b = one(F, T, s1, s2, script, oscript, w2, fl2, 'nonnative', sf, prefix, allowed=f'{al:02x}', fh=f'{fv2:02x}')
             out.append({'w': 'eq', 'fl': 'f0', 'sv': sv, 'lock': 'both', 'got': [a[0], b[0]]})
         except BaseException as e:
             if isinstance(e, (KeyboardInterrupt, SystemExit)):
@@ -129,18 +152,18 @@ def main(tier: str, seed: int) -> int:
     rep = Report('C05', tier, seed)
     rep.rule = ('MC (Taproot.tla on SymCrypto.tla): internal key x committed script x 8 witness classes (builder key spend, signature '
                 'under the internal key, under another key\'s root, under the root of another script; builder script spend, other '
-                'script, other key, the root itself as key) x flag classes x the script\'s own verdict x {native, non-native lock}; '
+                'script, other key, the root itself as key) x flag classes (no flag / permitted / non-permitted, each concretised with every single-bit allowed-flags byte) x the script\'s own verdict x {native, non-native lock}; '
                 'laws RootBinds, KeyPathExact, ScriptPathExact, BuildersUnlock; every case concretised with the real builders: the '
                 'root inside the lock is recomputed with the pure-Python Ed25519 (P + clamp(sha256(P || sha256(S))) G), the verdict of '
                 'witness + lock and whether an instruction of the supplied script ran (its marker in the cache) are compared. traces: '
-                'random seeds / scripts / sigfields / flags for all classes, and native vs non-native verdicts on adversarial '
+                'random seeds / scripts / sigfields / allowed-flags bytes and signature flags (subsets of / bits outside the allowed byte) for all classes, and native vs non-native verdicts on adversarial '
                 'witnesses of the C01 family, judged by TLC.')
     rep.assumptions = ['symbolic algebra (hash collisions / discrete-log coincidences excluded)',
                        'witnesses compared native vs non-native use little call budget (the non-native lock spends 2 calls)']
     quick = tier == 'quick'
     scncheck.mc(rep, 'Taproot', 'mc', INV, run_mc, workers=4)
     import multiprocessing as mp
-    n = 1200 if quick else 30000
+    n = 6000 if quick else 40000
     with mp.get_context('fork').Pool(14) as pool:
         cases = [c for ch in pool.map(record_random, [(seed * 43 + i, n // 28) for i in range(28)]) for c in ch]
     scncheck.judge(rep, 'Taproot', [], cases, 'random taproot scenarios')
